@@ -202,6 +202,23 @@ class PB(ExprBuilder):
             if dt:
                 v = self._with_dtype(v, dt)
             return v
+        if fn == "arange" and 1 <= len(args) <= 3 and not kw.get("dtype"):
+            start, stop, step = (num(0), args[0], num(1)) if len(args) == 1 else (args[0], args[1], args[2] if len(args) == 3 else num(1))
+            # arange(a, b, s) = a + s * arange(N) when b - a is an exact polynomial multiple N of s
+            try:
+                cn = Canon()
+                n = _exact((cn.ratio(stop) - cn.ratio(start)) / cn.ratio(step))
+                if n is not None and n.d.is_const():
+                    base = ('call', 'arange', (('call', 'count:' + repr(n), ()),))
+                    r = base
+                    if not cn.ratio(step) == cn.ratio(num(1)):
+                        r = ('mul', step, r)
+                    if not cn.ratio(start).is_zero():
+                        r = ('add', start, r)
+                    return r
+            except Exception:
+                pass
+            return ('call', 'arange', (start, stop, step))
         if fn == "copy" and args:
             return ('call', 'copy', (args[0],))
         if fn == "where" and len(args) == 3:
@@ -218,6 +235,28 @@ class PB(ExprBuilder):
             return ('call', 'nonzero', (args[0],))
         k3 = tuple(sorted(kw.items(), key=lambda x: x[0]))
         return ('call', fn, tuple(args), *((k3,) if k3 else ()))
+
+
+def _exact(r):
+    """Ratio -> the same value with a constant denominator when the denominator is a single monomial dividing every term"""
+    from .formula import Ratio
+    from .poly import Poly
+    if r.d.is_const():
+        return r
+    if len(r.d.t) != 1:
+        return None
+    (md, cd), = r.d.t.items()
+    out = {}
+    for m, c in r.n.t.items():
+        d = dict(m)
+        for nme, e in md:
+            if d.get(nme, 0) < e:
+                return None
+            d[nme] -= e
+            if d[nme] == 0:
+                del d[nme]
+        out[tuple(sorted(d.items()))] = c / cd
+    return Ratio(Poly(out))
 
 
 # ------------------------------------------------------------------------------------------------------ evaluation
